@@ -74,6 +74,16 @@ func factsVars(repo string, o *out) {
 						}
 					}
 				}
+			case *ast.ExprStmt:
+				// any other write to the result (result.Set(...) outside the layer loops) is a layer of its own:
+				// it shows up in VarLayers and so in the shape obligation
+				if ce, ok := s.X.(*ast.CallExpr); ok && exprStr(ce.Fun) == "result.Set" {
+					arg := "?"
+					if len(ce.Args) > 0 {
+						arg = exprStr(ce.Args[0])
+					}
+					layers = append(layers, "?Set:"+strings.Trim(arg, "\""))
+				}
 			case *ast.RangeStmt:
 				x := s.X
 				if ce, ok := x.(*ast.CallExpr); ok {
